@@ -71,7 +71,31 @@ def c07_worker(job):
         return out
     try:
         recs = case.meta['records']
+        from moPepGen.circ import CircRNAModel as _Circ
         with gen_ref.quiet():
+            # an indel anchored ON THE LAST BASE OF THE START CODON of a fusion donor / circRNA host
+            # (the graph builders re-anchor it): the units of one transcript share the record
+            # objects, so what one unit does to them must not be needed by another
+            genome_, anno_, _ = gen_ref.load_reference(case)
+            donors = sorted({r.transcript_id for r in recs if r.__class__ is not _Circ and r.is_fusion()} |
+                            {r.transcript_id for r in recs if r.__class__ is _Circ})
+            have_ = {(getattr(r, 'transcript_id', None), r.id) for r in recs}
+            for t_ in donors:
+                m_ = anno_.transcripts.get(t_)
+                if m_ is None or not m_.is_protein_coding or rng.random() > 0.6:
+                    continue
+                ts_ = m_.get_transcript_sequence(genome_[m_.transcript.chrom])
+                if not ts_.orf:
+                    continue
+                try:
+                    v_ = gen_ref.small_variant(anno_, genome_, t_, int(ts_.orf.start) + 2,
+                                               rng.choice(['INS', 'DEL']), rng.randint(1, 3), rng)
+                except Exception:   # noqa
+                    v_ = None
+                if v_ is not None and (t_, v_.id) not in have_:
+                    recs = recs + [v_]
+                    out['stats']['start_codon_indel_on_donor'] = out['stats'].get('start_codon_indel_on_donor', 0) + 1
+            case.meta['records'] = recs
             gen_ref.write_gvfs(case, recs)
         if not case.gvfs:
             out['stats']['empty'] = 1
